@@ -209,6 +209,7 @@ inductive RoStep where
   | addPod (p : Nat) (rsv : Option Nat)
   | restore (matched unmatched : List (Nat × List Nat))
   | filter (minors : Option (List Nat)) (a : AllocReq)
+  | opaque     -- a read-only step whose RESULT is not modelled (PreFilter; Filter through tryAllocateFromReusable)
 deriving Repr
 
 /-- what a cycle carries besides the cache -/
@@ -225,6 +226,7 @@ def roStep (sc : TState × Cycle) : RoStep → TState × Cycle
   | .addPod p rsv => let (s', d') := dryAddPod sc.1 sc.2.dry p rsv; (s', { sc.2 with dry := d' })
   | .restore m u => let (s', r) := restore sc.1 m u; (s', { sc.2 with restored := some r })
   | .filter ms a => let (s', v) := dryFilter sc.1 sc.2.dry ms a; (s', { sc.2 with verdicts := sc.2.verdicts ++ [v] })
+  | .opaque => sc
 
 def roRun (s : TState) (c : Cycle) (steps : List RoStep) : TState × Cycle := steps.foldl roStep (s, c)
 
